@@ -38,22 +38,31 @@ def build(tier, seed):
     # which part of the pool the quick tier visits
     pool3 = random.Random(POOL3_SEED).sample(c3, POOL3_SIZE)
     note = {"depth1": len(c1), "depth2_universe": len(c2), "siblings_universe": len(sb), "depth3_universe": len(c3), "depth3_pool": len(pool3)}
+    dc = list(fam.decl_chains())
+    ub = list(fam.unbound_fallback())
+    note["decl_chains_universe"] = len(dc)
+    note["unbound_fallback_universe"] = len(ub)
     if tier == "quick":
-        chosen = c1 + rnd.sample(c2, 700) + rnd.sample(sb, 150) + rnd.sample(pool3, 200)
+        chosen = c1 + rnd.sample(c2, 700) + rnd.sample(sb, 150) + rnd.sample(pool3, 200) + rnd.sample(dc, 400) + ub
     else:
-        chosen = c1 + c2 + sb + pool3
+        chosen = c1 + c2 + sb + pool3 + dc + ub
     allcfg = bool(os.environ.get("VERIF_ALLCFG"))
+    # the same trees with every comprehension rendered as a generator expression
+    gen_univ = [c for c in (c1 + c2 + sb) if fam.has_comp(c[1])]
+    note["genexp_universe"] = len(gen_univ)
+    gens = rnd.sample(gen_univ, 250) if tier == "quick" else gen_univ
+    chosen = [(m, ch, False) for m, ch in chosen] + [(m, ch, True) for m, ch in gens]
     tpls = []
     nvalid = 0
-    for k, (mrole, children) in enumerate(chosen):
-        src, ns = fam.render(mrole, children)
+    for k, (mrole, children, gen) in enumerate(chosen):
+        src, ns = (fam.render_gen if gen else fam.render)(mrole, children)
         if not valid(src, ns):
             continue
         nvalid += 1
         # a module-level for target is unbound after the loop (known finding KF-C06-FORLEAK): its
         # final global binding is not compared; every read of it inside the loop still is
         ign = []
-        t = sce.Template(fam.desc(mrole, children), src, [("V", "List[int]")], "len(V) == %d" % ns, observe="trace+globals", budget=400, ignore_globals=ign)
+        t = sce.Template(fam.desc(mrole, children) + ("~gen" if gen else ""), src, [("V", "List[int]")], "len(V) == %d" % ns, observe="trace+globals", budget=400, ignore_globals=ign)
         if not allcfg:
             t.sem_configs = [common.SEM_CONFIGS[(k + seed) % 4]]
         tpls.append(t)
